@@ -355,7 +355,12 @@ class Transaction:
         if self._done:
             return
         if _fault_hook and self._write:
-            _fault_hook("commit", b"")
+            try:
+                _fault_hook("commit", b"")
+            except BaseException:
+                # a failing mdb_txn_commit leaves the transaction aborted
+                self.abort()
+                raise
         self._finish_cursors_only()
         rc = _lib.mdb_txn_commit(self._txn)
         self._done = True
